@@ -11,6 +11,7 @@ import (
 
 	"verif/gen"
 	"verif/obs"
+	"verif/ref/reflabel"
 	"verif/ref/refv6"
 )
 
@@ -202,6 +203,9 @@ func flipTreeNames(m *refv6.Msg) {
 		for i := range o {
 			for k, s := range o[i].Names {
 				o[i].Names[k] = flipCase(s)
+			}
+			if len(o[i].Names) > 0 && len(o[i].B) > 0 {
+				o[i].B[len(o[i].B)-1] = reflabel.Encode(o[i].Names) // the wire form of the edited names
 			}
 			opts(o[i].Sub)
 			if o[i].Msg != nil {
